@@ -125,7 +125,8 @@ impl Zero for Element {
     }
 
     fn is_zero(&self) -> bool {
-        self.inner.is_zero()
+        // Must agree with `== Self::zero()` for both representatives of the identity.
+        self.is_identity()
     }
 }
 
